@@ -13,6 +13,8 @@ U_FIND = z3.Function("py_find", S, S, I)
 U_JOIN_SPLIT = z3.Function("py_join_split_ws", S, S)      # " ".join(s.split())
 U_ENCODABLE = z3.Function("py_utf8_encodable", S, B)        # s.encode("utf-8", "strict") succeeds (no lone surrogates)
 U_SLICE = z3.Function("py_slice", S, I, I, S)
+U_NSPLIT = z3.Function("py_split_count", S, S, I)            # len(s.split(sep))
+U_NWORDS = z3.Function("py_split_ws_count", S, I)            # len(s.split())
 
 
 def _t(v):
@@ -100,7 +102,9 @@ class SplitV:
             from .smt import KIND_LIST
             c = ip.c
             r = c.alloc(KIND_LIST)
-            n = c.fresh("nsplit", I)
+            # the number of pieces is a function of the string and the separator (A-str), so specs can name it
+            st = _t(self.s)
+            n = U_NSPLIT(st, _t(self.sep)) if self.sep is not None else U_NWORDS(st)
             c.assume(n >= (0 if self.sep is None else 1))
             j = z3.Int("sp_j")
             e = c.fresh("split_items", z3.ArraySort(I, Val))
